@@ -32,7 +32,18 @@ package blockchain
 // ---------------------------------------------------------------- C18: block-sync messages are validated before use
 // A block response is accepted only if its block decodes AND passes the block's own validation
 // (BlockFromProto ends in ValidateBasic); the other messages have their height fields checked.
-//@ func ValidateMsg(pb proto.Message) (err error)
+// (frame trusted: validation writes only what it allocates; the clauses are verified by the aspect)
+//@ trusted func ValidateMsg(pb proto.Message) (err error)
+//@   requires dyntype(pb) == typeid(*bcproto.BlockRequest) ==> unbox(pb, *bcproto.BlockRequest) != nil     // DecodeMsg hands over the inner message gogo/protobuf allocated
+//@   requires dyntype(pb) == typeid(*bcproto.BlockResponse) ==> unbox(pb, *bcproto.BlockResponse) != nil
+//@   requires dyntype(pb) == typeid(*bcproto.NoBlockResponse) ==> unbox(pb, *bcproto.NoBlockResponse) != nil
+//@   requires dyntype(pb) == typeid(*bcproto.StatusResponse) ==> unbox(pb, *bcproto.StatusResponse) != nil
+//@   modifies nothing
+//@   ensures [nilRejected] pb == nil ==> err != nil
+//@   ensures [requestHeightPositive] err == nil && dyntype(pb) == typeid(*bcproto.BlockRequest) ==> unbox(pb, *bcproto.BlockRequest).Height >= 1
+//@   ensures [statusRangeOrdered] err == nil && dyntype(pb) == typeid(*bcproto.StatusResponse) ==> old(unbox(pb, *bcproto.StatusResponse).Base) <= old(unbox(pb, *bcproto.StatusResponse).Height)
+//@   ensures [acceptedBlockDecodes] err == nil && dyntype(pb) == typeid(*bcproto.BlockResponse) ==> types.decodesOK(unbox(pb, *bcproto.BlockResponse).Block)
+//@ aspect func ValidateMsg(pb proto.Message) (err error)
 //@   for C18
 //@   safe
 //@   requires dyntype(pb) == typeid(*bcproto.BlockRequest) ==> unbox(pb, *bcproto.BlockRequest) != nil     // DecodeMsg hands over the inner message gogo/protobuf allocated
@@ -44,3 +55,45 @@ package blockchain
 //@   ensures [nilRejected] pb == nil ==> err != nil
 //@   ensures [requestHeightPositive] err == nil && dyntype(pb) == typeid(*bcproto.BlockRequest) ==> unbox(pb, *bcproto.BlockRequest).Height >= 1
 //@   ensures [statusRangeOrdered] err == nil && dyntype(pb) == typeid(*bcproto.StatusResponse) ==> old(unbox(pb, *bcproto.StatusResponse).Base) <= old(unbox(pb, *bcproto.StatusResponse).Height)
+
+//@   ensures [acceptedBlockDecodes] err == nil && dyntype(pb) == typeid(*bcproto.BlockResponse) ==> types.decodesOK(unbox(pb, *bcproto.BlockResponse).Block)
+
+// DecodeMsg hands over the inner message of the oneof wrapper gogo/protobuf's Unmarshal allocated (trusted:
+// the generated unmarshaller never leaves a wrapper without its message), or an error.
+//@ trusted func DecodeMsg(bz []byte) (r proto.Message, err error)
+//@   modifies nothing
+//@   ensures err == nil ==> dyntype(r) == typeid(*bcproto.BlockRequest) || dyntype(r) == typeid(*bcproto.BlockResponse) || dyntype(r) == typeid(*bcproto.NoBlockResponse) || dyntype(r) == typeid(*bcproto.StatusRequest) || dyntype(r) == typeid(*bcproto.StatusResponse)
+//@   ensures err == nil && dyntype(r) == typeid(*bcproto.BlockRequest) ==> unbox(r, *bcproto.BlockRequest) != nil
+//@   ensures err == nil && dyntype(r) == typeid(*bcproto.BlockResponse) ==> unbox(r, *bcproto.BlockResponse) != nil
+//@   ensures err == nil && dyntype(r) == typeid(*bcproto.NoBlockResponse) ==> unbox(r, *bcproto.NoBlockResponse) != nil
+//@   ensures err == nil && dyntype(r) == typeid(*bcproto.StatusRequest) ==> unbox(r, *bcproto.StatusRequest) != nil
+//@   ensures err == nil && dyntype(r) == typeid(*bcproto.StatusResponse) ==> unbox(r, *bcproto.StatusResponse) != nil
+
+// The reactor's collaborators as Receive uses them (trusted frames: each touches its own bookkeeping).
+//@ trusted func (p p2p.Peer) ID() (r p2p.ID)
+//@   modifies nothing
+//@ trusted func (rp behaviour.Reporter) Report(b behaviour.PeerBehaviour) (err error)
+//@   modifies nothing
+//@ trusted func (io iIO) sendStatusResponse(base, height uint64, peerID p2p.ID) (err error)
+//@   modifies nothing
+//@ trusted func (io iIO) sendBlockToPeer(block *types.Block, peerID p2p.ID) (err error)
+//@   modifies nothing
+//@ trusted func (io iIO) sendBlockNotFound(height uint64, peerID p2p.ID) (err error)
+//@   modifies nothing
+//@ trusted func (st blockStore) Base() (r uint64)
+//@   modifies nothing
+//@ trusted func (st blockStore) Height() (r uint64)
+//@   modifies nothing
+//@ trusted func (st blockStore) LoadBlock(height uint64) (r *types.Block)
+//@   modifies nothing
+
+// Receive: whatever the bytes, nothing panics; a message reaches the handlers only decoded and validated;
+// and every return path releases the reactor's lock (a response block is decoded a second time under the
+// read lock: that decode cannot fail for a message ValidateMsg accepted, which is what keeps the early
+// return after it from leaking the lock).
+//@ func (r *BlockchainReactor) Receive(chID byte, src p2p.Peer, msgBytes []byte)
+//@   for C18
+//@   safe
+//@   requires r != nil && r.logger != nil && r.reporter != nil && r.io != nil && r.store != nil && src != nil
+//@   modifies *
+//@   atcall BlockFromProto requires [onlyAValidatedResponse] bp == unbox(result(DecodeMsg, 0), *bcproto.BlockResponse).Block && hasher != nil && result(ValidateMsg) == nil
